@@ -75,7 +75,15 @@ func verifC01(n, shape, domLen, urlLen, srcLen, srcTail int) {
 	for i := 0; i < n; i++ {
 		sl := (shape >> (8 * i)) & 0xf
 		nd := (shape >> (8*i + 4)) & 0xf
-		rs[i] = rules.VerifTableRule(vn("rule", i, ""), sl, nd, domLen)
+		dl := domLen
+		if domLen >= 10 {
+			// two digits: the first rule's $domain values have the length of the tens digit, the others that of the units
+			dl = domLen % 10
+			if i == 0 {
+				dl = domLen / 10
+			}
+		}
+		rs[i] = rules.VerifTableRule(vn("rule", i, ""), sl, nd, dl)
 	}
 	if verifKnown("D9") {
 		for _, r := range rs {
